@@ -3,6 +3,7 @@ import Driver.OpsTemplate
 import Driver.OpsIeee
 import Driver.OpsCodec
 import Driver.OpsTables
+import Driver.OpsFrame
 /-
   bvp_lean — line-protocol driver: one operation per input line, one canonical
   result line per operation, computed by the *model*.  Each model area has its own
@@ -17,6 +18,7 @@ structure St where
   ieee : IeeeSt := {}
   codec : CodecSt := {}
   tbl : TblSt := {}
+  frame : FrameSt := {}
 
 def step (st : St) (line : String) : St × String :=
   let toks := (line.trimAscii.toString.splitOn " ").filter (· ≠ "")
@@ -32,6 +34,9 @@ def step (st : St) (line : String) : St × String :=
   | none =>
   match stepCodec st.tm st.codec toks with
   | some (t, c, o) => ({ st with tm := t, codec := c }, o)
+  | none =>
+  match stepFrame st.frame toks with
+  | some (s, o) => ({ st with frame := s }, o)
   | none => (st, "bad-op")
 
 partial def loop (h : IO.FS.Stream) (out : IO.FS.Stream) (st : St) : IO Unit := do
